@@ -23,7 +23,7 @@ for l in open("/tmp/mutval/results.jsonl"):
 props = [a for a in sys.argv[1:] if a.startswith("C")] or sorted(REL)
 head = sh(f"git -C {REPO} rev-parse --short HEAD")[1].strip()
 for prop in props:
-    for patch in sorted(glob.glob(f"/tmp/mut/{prop}/_mutants/m*.patch.diff")):
+    for patch in sorted(glob.glob(os.environ.get("MUT_ROOT","/tmp/mut")+f"/{prop}/_mutants/m*.patch.diff")):
         m = os.path.basename(patch).split(".")[0]
         v = val.get((prop, m))
         if os.path.exists(f"/verif/seeded/{prop}-{m}/meta.json") and not os.environ.get("MATRIX_FORCE"):
